@@ -40,6 +40,10 @@ func (w *World) crashOffer(sc *scratch, name string, v1 []types.Transaction, v2 
 			w.violate("C10", "validate-txn-panic", fmt.Sprintf("row %s: ValidateV2Transaction: %s", name, p))
 			return
 		}
+		if p := guard(func() { _ = sc.s.Elements.ValidateTransactionElements(v2[i]) }); p != "" {
+			w.violate("C10", "validate-txn-panic", fmt.Sprintf("row %s: ValidateTransactionElements: %s", name, p))
+			return
+		}
 	}
 	var enc []byte
 	if p := guard(func() { enc = encodeBlock(b) }); p != "" {
@@ -96,6 +100,15 @@ func init() {
 				t2.SiacoinOutputs[0].Value = max
 				w.signAllV2(sc.s, &t2)
 				w.crashOffer(sc, "ephemeral-parents-max-currency", nil, []types.V2Transaction{t1, t2})
+			}
+			// parents whose proofs are as long as the accumulator has trees, and longer
+			for _, k := range []int{62, 63, 64, 65, 66, 128, 1000} {
+				t := t1.DeepCopy()
+				t.SiacoinInputs[0].Parent.StateElement.MerkleProof = make([]types.Hash256, k)
+				if k%2 == 0 {
+					t.SiacoinInputs[0].Parent.StateElement.LeafIndex = ^uint64(0) - 1
+				}
+				w.crashOffer(sc, fmt.Sprintf("parent-proof-of-%d-hashes", k), nil, []types.V2Transaction{t})
 			}
 			// outputs that overflow when summed
 			t := t1.DeepCopy()
